@@ -251,6 +251,19 @@ def gen_opts(rng, op, info, filter_refs=None, writer_refs=None, p_opt=0.3):
         rng.shuffle(sub)
         # only meaningful where the argument is honoured (static + Interpolatable list)
         if static or op == "compileInterpolatableTTFs":
+            # half of the time prefer glyphs that others are named after or built from
+            # ('A' for 'A.alt', 'A.comp0', 'A_V'): pruning them changes what name
+            # derivation, decomposition and feature closure see
+            ns = set(sub)
+            stems = [n for n in sub if any(o_ != n and (o_.startswith(n + ".") or n in o_.split(".")[0].split("_"))
+                                          for o_ in ns)]
+            # composites named after their base ('A.comp0', 'A.mixed') are not referenced by
+            # generated feature code, so pruning their base does not just end in a feature error
+            safe = [n for n in stems if any(o_.startswith(n + ".comp") or o_.startswith(n + ".mixed")
+                                            for o_ in ns)]
+            stems = safe + [n for n in stems if n not in safe]
+            if stems and rng.random() < 0.5:
+                sub = stems + [n for n in sub if n not in stems]
             o["skipExportGlyphs"] = sub[: rng.randint(0, min(2, len(sub)))]
     if _maybe(rng, p_opt):
         k = rng.randint(1, 2)
